@@ -491,3 +491,26 @@ def fn_block(body):
         # async fn desugaring: block { let params..; tail: user block } — take innermost meaningful block
         return inner
     return b
+
+
+class Aliases:
+    """plain-copy aliases inside one body: `let b = a;` (async/async_trait parameter re-bindings, `let __self = self`)"""
+
+    def __init__(self, body):
+        self.m = {}
+        for n in walk_nodes(body["body"] if "body" in body and "k" not in body else body):
+            if n.get("k") == "let" and "init" in n and n["pat"].get("k") == "bind":
+                i = n["init"]
+                if i.get("k") == "path" and i.get("r") == "local":
+                    self.m[n["pat"]["hid"]] = i["hid"]
+
+    def canon(self, h):
+        seen = 0
+        while h in self.m and seen < 10:
+            h = self.m[h]
+            seen += 1
+        return h
+
+    def hid(self, n):
+        h = local_hid(n)
+        return None if h is None else self.canon(h)
